@@ -1,6 +1,9 @@
 ------------------------------- MODULE Group -------------------------------
 (* dispatch_group_t on Linux/futex (src/semaphore.c:148-407, src/semaphore_internal.h,
-   src/inline_internal.h os_mpsc_*, src/shims/lock.c _dispatch_futex_wait/_wake).
+   src/inline_internal.h os_mpsc_*, _dispatch_continuation_with_group_invoke,
+   src/shims/lock.c _dispatch_futex_wait/_wake).
+   SEVERAL groups live at once (CONSTANT Groups): every shared word is indexed by its group, a thread
+   is inside at most one call at a time (lv[t].grp names the group of that call).
    One action per shared-memory access / kernel call of the implementation:
 
      dispatch_group_enter   : os_atomic_sub_orig2o(dg_bits, INTERVAL, acquire)  -- 32 bits, no borrow into dg_gen
@@ -19,15 +22,24 @@
                               (store prev->do_next, or store head when the list was empty); the first
                               pusher runs an rmw loop on dg_state: fires at once when (uint32_t)state == 0,
                               otherwise CAS sets HAS_NOTIFS
-     dispatch_group_async   : enter + continuation whose completion (on a worker) does leave
+     dispatch_group_async   : enter(dg) + continuation; the thread that runs it does
+                              _dispatch_continuation_with_group_invoke: { dou = dc->dc_data (THE GROUP, a local
+                              copy: the continuation itself is already back in the thread's cache and is
+                              reused by the first continuation the block allocates); client callout;
+                              dispatch_group_leave(dou) }.  The callout may itself enter / async / notify
+                              on this or on ANOTHER group.  cur[t] = the item thread t is running:
+                              ItemStart .. (nested calls) .. ItemEnd, then the library's leave -- which must
+                              be on the group the item ENTERED (cur[t].g).
 
-   dg_state is the record st = [gen, nv, hn, hw]; nv is the RAW value field (bits 2..31 of the
+   dg_state is the record st[g] = [gen, nv, hn, hw]; nv is the RAW value field (bits 2..31 of the
    word, i.e. minus the entered count modulo 2^K; K = 30 in the library, small when model checking),
    so that enter/leave are the library's modular arithmetic and the carry is explicit.
-   The notify list is the real MPSC list: ntail, nhead, nnext[] (0 = NULL).
+   The notify list is the real MPSC list: ntail[g], nhead[g], nnext[] (0 = NULL).
 
-   Property C07 is stated on ghost variables (outstanding enter tokens, per-notification snapshot
+   Property C07 is stated on ghost variables (per group: outstanding enter tokens; per-notification snapshot
    of the tokens outstanding at the notify call, fired counts, per-wait "count was zero during the call").
+   "Every enter is balanced by one leave ON THE SAME GROUP" = conservation, per group:
+   Count(st[g]) = |outstanding[g]| and outstanding[g] = the tokens somebody still holds (TypeOK).
 
    KNOWN DEFECT F2 of the pinned tree (DESIGN.md section 9): _dispatch_group_wake snapshots the list some
    time after the decision "the count is zero"; a notifier pushed in that window is fired with the old
@@ -37,32 +49,39 @@
 EXTENDS Integers, FiniteSets, Sequences, TLC
 
 CONSTANTS Threads,   \* all threads (clients and workers)
-          Workers,   \* threads that complete dispatch_group_async work (model checking only)
+          Workers,   \* threads that run dispatch_group_async work (model checking only)
+          Groups,    \* the groups (a set of non-negative integers)
           K,         \* width of the value field
-          NIds,      \* notifier (continuation) identities, a set of positive integers
-          Prog,      \* model checking: Prog[t] = sequence of SETS of operations the client may choose from
+          NIds,      \* notifier (continuation) identities, a set of positive integers (shared by the groups)
+          Prog,      \* model checking: Prog[t] = sequence of SETS of operations <<kind, group, body>>
           MaxSpur,   \* bound on spurious futex wake-ups (-1 = unbounded, trace validation)
           Mut        \* "none" or the name of a spec mutation (non-vacuity runs)
 
 VMOD == 2 ^ K
 \* the ghosts of the observation NoMissedZero are only maintained when asked for (they cost states)
 Track == Mut = "obs_missed_zero"
+\* mutant: the leave after a dispatch_group_async block is applied to dc->dc_data re-read AFTER the callout, i.e.
+\* to the group of the last dispatch_group_async the block itself made (the continuation was reused)
+MutData == Mut = "async_leaves_last_touched_group"
 
 Count(nv) == (VMOD - nv) % VMOD          \* _dg_state_value()
+NoG == -1                                \* "no group"
 
-VARIABLES st,          \* dg_state: [gen, nv, hn, hw]
-          ntail, nhead, nnext,   \* dg_notify_tail, dg_notify_head, do_next of the notify continuations
-          futexQ,      \* threads sleeping in futex_wait(&dg_gen)
-          pc, lv,      \* per thread control point and locals
-          ip,          \* per thread position in Prog (model checking only)
+VARIABLES st,          \* [Groups -> dg_state: [gen, nv, hn, hw]]
+          ntail, nhead, \* [Groups -> dg_notify_tail / dg_notify_head]
+          nnext,       \* do_next of the notify continuations
+          futexQ,      \* [Groups -> threads sleeping in futex_wait(&dg_gen)]
+          pc, lv,      \* per thread control point and locals (lv[t].grp = the group of the call in progress)
+          ip,          \* per thread position in Prog / in the body of the item it runs (model checking only)
           spur,        \* spurious wake-ups taken
+          cur,         \* per thread: the dispatch_group_async item it is running [tk, g, data, done] (tk = 0: none)
           \* ----- ghosts -----
-          outstanding, \* enter tokens not yet matched by a leave (linearised at the atomics)
-          own,         \* per thread: tokens entered by this thread that it has not started to leave
-          tasks,       \* tokens of dispatch_group_async work whose block has not finished
-          pushed,      \* notifiers that are on (or went through) the list
+          outstanding, \* [Groups -> enter tokens not yet matched by a leave ON THAT GROUP (linearised at the atomics)]
+          own,         \* [Groups -> per thread: tokens entered by this thread that it has not started to leave]
+          tasks,       \* [Groups -> tokens of dispatch_group_async work the library has not yet left for]
+          pushed,      \* [Groups -> notifiers that are on (or went through) the list]
           regd,        \* notifiers whose dispatch_group_notify call has returned or decided to fire
-          before,      \* notifier -> tokens outstanding at its dispatch_group_notify call
+          before,      \* notifier -> tokens outstanding (in its group) at its dispatch_group_notify call
           zeroAfter,   \* notifier -> a leave brought the count to zero after it was registered and before it fired
           fired,       \* notifier -> times submitted (dx_push)
           ran,         \* notifier -> times its block ran (trace validation only)
@@ -70,25 +89,31 @@ VARIABLES st,          \* dg_state: [gen, nv, hn, hw]
           waitRes,     \* per thread: result of the last wait call: "none" | "ok" | "timeout"
           earlyF2, earlyOther   \* an early submission happened, of class F2 / of any other class
 
-vars == <<st, ntail, nhead, nnext, futexQ, pc, lv, ip, spur, outstanding, own, tasks, pushed, regd, before,
+vars == <<st, ntail, nhead, nnext, futexQ, pc, lv, ip, spur, cur, outstanding, own, tasks, pushed, regd, before,
           zeroAfter, fired, ran, zeroSeen, waitRes, earlyF2, earlyOther>>
 
 S0 == [gen |-> 0, nv |-> 0, hn |-> 0, hw |-> 0]
-L0 == [o |-> S0, g |-> 0, kind |-> "forever", tmo |-> FALSE, rc |-> "none",
+L0 == [grp |-> NoG, o |-> S0, g |-> 0, kind |-> "forever", tmo |-> FALSE, rc |-> "none",
        n |-> 0, prev |-> 0, bef |-> {}, head |-> 0, tail |-> 0, dc |-> 0, nx |-> 0,
        ohn |-> 0, ohw |-> 0, dec |-> FALSE, win |-> {}, f2 |-> {}, nul |-> FALSE]
+C0 == [tk |-> 0, g |-> NoG, data |-> NoG, done |-> FALSE]
 
-Init == /\ st = S0 /\ ntail = 0 /\ nhead = 0 /\ nnext = [n \in NIds |-> 0]
-        /\ futexQ = {} /\ pc = [t \in Threads |-> "idle"] /\ lv = [t \in Threads |-> L0]
-        /\ ip = [t \in Threads |-> 1] /\ spur = 0
-        /\ outstanding = {} /\ own = [t \in Threads |-> {}] /\ tasks = {}
-        /\ pushed = {} /\ regd = {} /\ before = [n \in NIds |-> {}] /\ zeroAfter = [n \in NIds |-> FALSE]
+Init == /\ st = [g \in Groups |-> S0] /\ ntail = [g \in Groups |-> 0] /\ nhead = [g \in Groups |-> 0]
+        /\ nnext = [n \in NIds |-> 0]
+        /\ futexQ = [g \in Groups |-> {}] /\ pc = [t \in Threads |-> "idle"] /\ lv = [t \in Threads |-> L0]
+        /\ ip = [t \in Threads |-> 1] /\ spur = 0 /\ cur = [t \in Threads |-> C0]
+        /\ outstanding = [g \in Groups |-> {}] /\ own = [g \in Groups |-> [t \in Threads |-> {}]]
+        /\ tasks = [g \in Groups |-> {}]
+        /\ pushed = [g \in Groups |-> {}] /\ regd = {} /\ before = [n \in NIds |-> {}]
+        /\ zeroAfter = [n \in NIds |-> FALSE]
         /\ fired = [n \in NIds |-> 0] /\ ran = [n \in NIds |-> 0]
         /\ zeroSeen = [t \in Threads |-> FALSE] /\ waitRes = [t \in Threads |-> "none"]
         /\ earlyF2 = FALSE /\ earlyOther = FALSE
 
 WaitPcs == {"w_load", "w_cas", "w_fcall", "w_sleep", "w_gload"}
 InWait(t) == pc[t] \in WaitPcs
+G(t) == lv[t].grp                        \* the group of the call thread t is in
+PushedAll == UNION {pushed[g] : g \in Groups}
 
 Reg(n) == IF Track THEN regd \cup {n} ELSE regd
 Go(t, l) == pc' = [pc EXCEPT ![t] = l]
@@ -99,31 +124,51 @@ GoSet(t, l, r) == Go(t, l) /\ Set(t, IF l = "idle" THEN Clean(r) ELSE r)
 
 (* ------------------------------- API entry ------------------------------- *)
 \* the snapshot "work entered before the notify call" is taken here
-CallNotify(t) ==
-    /\ pc[t] = "idle" /\ Go(t, "nf_xchg") /\ Set(t, [lv[t] EXCEPT !.bef = outstanding])
-    /\ UNCHANGED <<st, ntail, nhead, nnext, futexQ, spur, outstanding, own, tasks, pushed, regd, before,
+CallNotify(t, g) ==
+    /\ pc[t] = "idle" /\ Go(t, "nf_xchg") /\ Set(t, [lv[t] EXCEPT !.grp = g, !.bef = outstanding[g]])
+    /\ UNCHANGED <<st, ntail, nhead, nnext, futexQ, spur, cur, outstanding, own, tasks, pushed, regd, before,
                    zeroAfter, fired, ran, zeroSeen, waitRes, earlyF2, earlyOther>>
-CallWait(t, k) ==
+CallWait(t, g, k) ==
     /\ pc[t] = "idle" /\ Go(t, "w_load")
-    /\ Set(t, [lv[t] EXCEPT !.kind = k, !.tmo = FALSE, !.rc = "none"])
-    /\ zeroSeen' = [zeroSeen EXCEPT ![t] = (Count(st.nv) = 0)]
+    /\ Set(t, [lv[t] EXCEPT !.grp = g, !.kind = k, !.tmo = FALSE, !.rc = "none"])
+    \* C07 speaks about the enters and leaves (the ghost), not about the word
+    /\ zeroSeen' = [zeroSeen EXCEPT ![t] = (outstanding[g] = {})]
     /\ waitRes' = [waitRes EXCEPT ![t] = "none"]
-    /\ UNCHANGED <<st, ntail, nhead, nnext, futexQ, spur, outstanding, own, tasks, pushed, regd, before,
+    /\ UNCHANGED <<st, ntail, nhead, nnext, futexQ, spur, cur, outstanding, own, tasks, pushed, regd, before,
                    zeroAfter, fired, ran, earlyF2, earlyOther>>
 
 (* --------------------------- dispatch_group_enter --------------------------- *)
 \* uint32_t old_bits = os_atomic_sub_orig2o(dg, dg_bits, INTERVAL, acquire);  (32 bits: gen untouched)
 \* old_value == VALUE_MAX is a client crash ("too many nested calls"): not a legal history.
 \* The call has this single step (call, access and return are one action; `tk` names the work entered,
-\* `async` says that it is dispatch_group_async work, which a worker thread will leave).
-Enter(t, tk, async) ==
-    /\ pc[t] = "idle" /\ Count(st.nv) < VMOD - 1
-    /\ st' = [st EXCEPT !.nv = (st.nv + VMOD - 1) % VMOD]
-    /\ outstanding' = outstanding \cup {tk}
-    /\ IF async THEN tasks' = tasks \cup {tk} /\ own' = own
-                ELSE own' = [own EXCEPT ![t] = @ \cup {tk}] /\ tasks' = tasks
+\* `async` says that it is dispatch_group_async work, which the thread that runs the block will leave).
+Enter(t, g, tk, async) ==
+    /\ pc[t] = "idle" /\ Count(st[g].nv) < VMOD - 1
+    /\ st' = [st EXCEPT ![g].nv = (@ + VMOD - 1) % VMOD]
+    /\ outstanding' = [outstanding EXCEPT ![g] = @ \cup {tk}]
+    /\ IF async THEN tasks' = [tasks EXCEPT ![g] = @ \cup {tk}] /\ own' = own
+                ELSE own' = [own EXCEPT ![g][t] = @ \cup {tk}] /\ tasks' = tasks
+    \* (mutant) dispatch_group_async from inside an item reuses the item's continuation: dc_data := g
+    /\ cur' = IF MutData /\ async /\ cur[t].tk # 0 THEN [cur EXCEPT ![t].data = g] ELSE cur
     /\ UNCHANGED <<ntail, nhead, nnext, futexQ, pc, lv, spur, pushed, regd, before, zeroAfter, fired, ran,
                    zeroSeen, waitRes, earlyF2, earlyOther>>
+
+(* ------------------- _dispatch_continuation_with_group_invoke ------------------- *)
+Running == {cur[u].tk : u \in Threads} \ {0}
+\* the client callout of item tk (entered in group g) starts on thread t
+\* (d: model checking collapses start and end of an empty block, both are local)
+ItemStartD(t, g, tk, d) ==
+    /\ pc[t] = "idle" /\ cur[t].tk = 0 /\ tk \in tasks[g] /\ tk \notin Running
+    /\ cur' = [cur EXCEPT ![t] = [tk |-> tk, g |-> g, data |-> g, done |-> d]]
+    /\ UNCHANGED <<st, ntail, nhead, nnext, futexQ, pc, lv, spur, outstanding, own, tasks, pushed, regd, before,
+                   zeroAfter, fired, ran, zeroSeen, waitRes, earlyF2, earlyOther>>
+ItemStart(t, g, tk) == ItemStartD(t, g, tk, FALSE)
+\* ... and has returned: the next thing the thread does is the library's dispatch_group_leave
+ItemEnd(t, tk) ==
+    /\ pc[t] = "idle" /\ tk # 0 /\ cur[t].tk = tk /\ ~cur[t].done
+    /\ cur' = [cur EXCEPT ![t].done = TRUE]
+    /\ UNCHANGED <<st, ntail, nhead, nnext, futexQ, pc, lv, spur, outstanding, own, tasks, pushed, regd, before,
+                   zeroAfter, fired, ran, zeroSeen, waitRes, earlyF2, earlyOther>>
 
 (* ---------------------------- _dispatch_group_wake ---------------------------- *)
 \* control point after the decision to call _dispatch_group_wake(dg, o, ...) has been taken (local)
@@ -135,41 +180,41 @@ WakeLv(r, o) == [r EXCEPT !.ohn = o.hn, !.ohw = o.hw, !.nul = FALSE,
 
 \* dc = os_mpsc_get_head(): load dg_notify_head, spinning in _dispatch_wait_for_enqueuer while NULL
 WakeGetHead(t) ==
-    /\ pc[t] = "wk_head" /\ nhead # 0
-    /\ Set(t, [lv[t] EXCEPT !.head = nhead, !.nul = FALSE]) /\ Go(t, "wk_hclr")
-    /\ UNCHANGED <<st, ntail, nhead, nnext, futexQ, ip, spur, outstanding, own, tasks, pushed, regd, before,
+    /\ pc[t] = "wk_head" /\ nhead[G(t)] # 0
+    /\ Set(t, [lv[t] EXCEPT !.head = nhead[G(t)], !.nul = FALSE]) /\ Go(t, "wk_hclr")
+    /\ UNCHANGED <<st, ntail, nhead, nnext, futexQ, ip, spur, cur, outstanding, own, tasks, pushed, regd, before,
                    zeroAfter, fired, ran, zeroSeen, waitRes, earlyF2, earlyOther>>
 \* the first load returned NULL (only distinguished in traces; afterwards the spin reads are unlogged)
 WakeHeadNull(t) ==
-    /\ pc[t] = "wk_head" /\ nhead = 0 /\ Set(t, [lv[t] EXCEPT !.nul = TRUE])
-    /\ UNCHANGED <<st, ntail, nhead, nnext, futexQ, pc, ip, spur, outstanding, own, tasks, pushed, regd, before,
+    /\ pc[t] = "wk_head" /\ nhead[G(t)] = 0 /\ Set(t, [lv[t] EXCEPT !.nul = TRUE])
+    /\ UNCHANGED <<st, ntail, nhead, nnext, futexQ, pc, ip, spur, cur, outstanding, own, tasks, pushed, regd, before,
                    zeroAfter, fired, ran, zeroSeen, waitRes, earlyF2, earlyOther>>
 \* os_atomic_store(head, NULL, relaxed)
 WakeHeadClear(t) ==
     /\ pc[t] = "wk_hclr"
-    /\ nhead' = IF Mut = "wake_noclear" THEN nhead ELSE 0
+    /\ nhead' = IF Mut = "wake_noclear" THEN nhead ELSE [nhead EXCEPT ![G(t)] = 0]
     /\ Go(t, "wk_txchg")
-    /\ UNCHANGED <<st, ntail, nnext, futexQ, lv, ip, spur, outstanding, own, tasks, pushed, regd, before,
+    /\ UNCHANGED <<st, ntail, nnext, futexQ, lv, ip, spur, cur, outstanding, own, tasks, pushed, regd, before,
                    zeroAfter, fired, ran, zeroSeen, waitRes, earlyF2, earlyOther>>
 \* *tail = os_atomic_xchg(tail, NULL, release): THE LIST SNAPSHOT.  The F2 window closes here:
 \* f2 = notifiers that were pushed after this thread's zero decision and are in this snapshot.
 WakeTailXchg(t) ==
     /\ pc[t] = "wk_txchg"
-    /\ ntail' = IF Mut = "wake_noclear" THEN ntail ELSE 0
-    /\ Set(t, [lv[t] EXCEPT !.tail = ntail, !.dc = lv[t].head, !.nx = 0,
+    /\ ntail' = IF Mut = "wake_noclear" THEN ntail ELSE [ntail EXCEPT ![G(t)] = 0]
+    /\ Set(t, [lv[t] EXCEPT !.tail = ntail[G(t)], !.dc = lv[t].head, !.nx = 0,
                             !.f2 = IF lv[t].dec THEN lv[t].win ELSE {}, !.dec = FALSE, !.win = {}])
-    /\ Go(t, IF lv[t].head # ntail THEN "wk_next" ELSE "wk_submit")
-    /\ UNCHANGED <<st, nhead, nnext, futexQ, ip, spur, outstanding, own, tasks, pushed, regd, before,
+    /\ Go(t, IF lv[t].head # ntail[G(t)] THEN "wk_next" ELSE "wk_submit")
+    /\ UNCHANGED <<st, nhead, nnext, futexQ, ip, spur, cur, outstanding, own, tasks, pushed, regd, before,
                    zeroAfter, fired, ran, zeroSeen, waitRes, earlyF2, earlyOther>>
 \* next_dc = os_mpsc_get_next(dc, do_next): load, spinning while the enqueuer has not linked yet
 WakeGetNext(t) ==
     /\ pc[t] = "wk_next" /\ nnext[lv[t].dc] # 0
     /\ Set(t, [lv[t] EXCEPT !.nx = nnext[lv[t].dc], !.nul = FALSE]) /\ Go(t, "wk_submit")
-    /\ UNCHANGED <<st, ntail, nhead, nnext, futexQ, ip, spur, outstanding, own, tasks, pushed, regd, before,
+    /\ UNCHANGED <<st, ntail, nhead, nnext, futexQ, ip, spur, cur, outstanding, own, tasks, pushed, regd, before,
                    zeroAfter, fired, ran, zeroSeen, waitRes, earlyF2, earlyOther>>
 WakeNextNull(t) ==
     /\ pc[t] = "wk_next" /\ nnext[lv[t].dc] = 0 /\ Set(t, [lv[t] EXCEPT !.nul = TRUE])
-    /\ UNCHANGED <<st, ntail, nhead, nnext, futexQ, pc, ip, spur, outstanding, own, tasks, pushed, regd, before,
+    /\ UNCHANGED <<st, ntail, nhead, nnext, futexQ, pc, ip, spur, cur, outstanding, own, tasks, pushed, regd, before,
                    zeroAfter, fired, ran, zeroSeen, waitRes, earlyF2, earlyOther>>
 \* _dispatch_continuation_async(dsn_queue, dc, ...): the notification block is SUBMITTED (dx_push).
 \* C07 "not before all work entered before the notify call has left" is evaluated here.
@@ -177,21 +222,21 @@ WakeSubmit(t) ==
     /\ pc[t] = "wk_submit"
     /\ LET n == lv[t].dc
            nx == lv[t].nx
-           isEarly == before[n] \cap outstanding # {}
+           isEarly == before[n] \cap outstanding[G(t)] # {}
        IN /\ fired' = [fired EXCEPT ![n] = @ + 1]
           /\ earlyF2' = (earlyF2 \/ (isEarly /\ n \in lv[t].f2))
           /\ earlyOther' = (earlyOther \/ (isEarly /\ n \notin lv[t].f2))
           /\ GoSet(t, IF nx = 0 THEN (IF lv[t].ohw = 1 THEN "wk_futex" ELSE "idle")
                       ELSE IF nx # lv[t].tail THEN "wk_next" ELSE "wk_submit",
                    [lv[t] EXCEPT !.dc = nx, !.nx = 0])
-    /\ UNCHANGED <<st, ntail, nhead, nnext, futexQ, ip, spur, outstanding, own, tasks, pushed, regd, before,
+    /\ UNCHANGED <<st, ntail, nhead, nnext, futexQ, ip, spur, cur, outstanding, own, tasks, pushed, regd, before,
                    zeroAfter, ran, zeroSeen, waitRes>>
 \* _dispatch_wake_by_address(&dg->dg_gen): FUTEX_WAKE all
 WakeFutex(t) ==
     /\ pc[t] = "wk_futex"
-    /\ futexQ' = IF Mut = "leave_nowake" THEN futexQ ELSE {}
+    /\ futexQ' = IF Mut = "leave_nowake" THEN futexQ ELSE [futexQ EXCEPT ![G(t)] = {}]
     /\ GoSet(t, "idle", lv[t])
-    /\ UNCHANGED <<st, ntail, nhead, nnext, ip, spur, outstanding, own, tasks, pushed, regd, before,
+    /\ UNCHANGED <<st, ntail, nhead, nnext, ip, spur, cur, outstanding, own, tasks, pushed, regd, before,
                    zeroAfter, fired, ran, zeroSeen, waitRes, earlyF2, earlyOther>>
 
 (* --------------------------- dispatch_group_leave --------------------------- *)
@@ -200,24 +245,32 @@ WakeFutex(t) ==
 LeaveNew(o) == IF Mut = "wake_noclear"      \* mutant: the list (and its bit) is treated as persistent
                  THEN (IF o.nv = 0 THEN [o EXCEPT !.hw = 0] ELSE o)
                ELSE IF o.nv = 0 THEN [o EXCEPT !.hn = 0, !.hw = 0] ELSE [o EXCEPT !.hn = 0]
-\* old_state = os_atomic_add_orig2o(dg, dg_state, INTERVAL, release); carry into gen when nv = VMOD-1.
+\* old_state = os_atomic_add_orig2o(dg, dg_state, INTERVAL, release) ON GROUP g; carry into gen when nv = VMOD-1.
 \* An unbalanced leave (old_value == 0) is a client crash: not a legal history.
-\* `tk` is the work being left: the caller's own (dispatch_group_leave) or dispatch_group_async work whose
-\* block just finished on this thread (_dispatch_continuation_with_group_invoke)
-Leave(t, tk) ==
-    /\ pc[t] = "idle" /\ Count(st.nv) > 0
-    /\ \/ tk \in own[t] /\ own' = [own EXCEPT ![t] = @ \ {tk}] /\ tasks' = tasks
-       \/ tk \in tasks /\ tasks' = tasks \ {tk} /\ own' = own
-    /\ LET one == IF Mut = "leave_anyvalue" THEN TRUE ELSE (st.nv = VMOD - 1)   \* old_value == VALUE_1
-           ns == [st EXCEPT !.nv = (st.nv + 1) % VMOD, !.gen = IF st.nv = VMOD - 1 THEN st.gen + 1 ELSE st.gen]
-           zero == (ns.nv = 0)
-       IN /\ st' = ns
-          /\ outstanding' = outstanding \ {tk}
-          /\ zeroSeen' = [u \in Threads |-> zeroSeen[u] \/ (zero /\ InWait(u))]
-          /\ zeroAfter' = [n \in NIds |-> zeroAfter[n] \/ (Track /\ zero /\ n \in regd /\ fired[n] = 0)]
+\* `tk` is the work being left: the caller's own (dispatch_group_leave: tk entered g by this thread), or the
+\* dispatch_group_async item this thread has just finished running (_dispatch_continuation_with_group_invoke:
+\* the callout has returned -- cur[t].done -- and g is THE GROUP THE ITEM ENTERED).  The mutant leaves the group
+\* found in the reused continuation instead; then the ghost of g loses nothing (nobody entered g as tk).
+Leave(t, g, tk) ==
+    /\ pc[t] = "idle" /\ Count(st[g].nv) > 0
+    /\ \/ /\ tk \in own[g][t]
+          /\ own' = [own EXCEPT ![g][t] = @ \ {tk}] /\ tasks' = tasks /\ cur' = cur
+       \/ /\ tk # 0 /\ cur[t].tk = tk /\ cur[t].done /\ tk \in tasks[cur[t].g]
+          /\ g = (IF MutData THEN cur[t].data ELSE cur[t].g)
+          /\ tasks' = [tasks EXCEPT ![cur[t].g] = @ \ {tk}] /\ own' = own
+          /\ cur' = [cur EXCEPT ![t] = C0]
+    /\ LET s == st[g]
+           one == IF Mut = "leave_anyvalue" THEN TRUE ELSE (s.nv = VMOD - 1)   \* old_value == VALUE_1
+           ns == [s EXCEPT !.nv = (s.nv + 1) % VMOD, !.gen = IF s.nv = VMOD - 1 THEN s.gen + 1 ELSE s.gen]
+           zero == (ns.nv = 0)                          \* the word
+           left == outstanding[g] \ {tk}                \* the ghost
+       IN /\ st' = [st EXCEPT ![g] = ns]
+          /\ outstanding' = [outstanding EXCEPT ![g] = left]
+          /\ zeroSeen' = [u \in Threads |-> zeroSeen[u] \/ (left = {} /\ InWait(u) /\ G(u) = g)]
+          /\ zeroAfter' = [n \in NIds |-> zeroAfter[n] \/ (Track /\ zero /\ n \in regd /\ n \in pushed[g] /\ fired[n] = 0)]
           /\ IF one
                THEN \* old_state += INTERVAL; this is a ZERO DECISION (true zero iff `zero`)
-                    LET r == [lv[t] EXCEPT !.o = ns, !.dec = zero, !.win = {}] IN
+                    LET r == [lv[t] EXCEPT !.grp = g, !.o = ns, !.dec = zero, !.win = {}] IN
                     IF LeaveNew(ns) = ns
                       THEN GoSet(t, WakePc(ns), WakeLv(r, ns))       \* break: nothing to clear
                       ELSE Set(t, r) /\ Go(t, "lv_cas")
@@ -226,44 +279,45 @@ Leave(t, tk) ==
                    waitRes, earlyF2, earlyOther>>
 \* os_atomic_cmpxchgv2o(dg, dg_state, old_state, new_state, &old_state, relaxed)
 LeaveCasOk(t) ==
-    /\ pc[t] = "lv_cas" /\ st = lv[t].o
-    /\ st' = LeaveNew(lv[t].o)
+    /\ pc[t] = "lv_cas" /\ st[G(t)] = lv[t].o
+    /\ st' = [st EXCEPT ![G(t)] = LeaveNew(lv[t].o)]
     /\ GoSet(t, WakePc(lv[t].o), WakeLv(lv[t], lv[t].o))   \* wake gets the value BEFORE the CAS
-    /\ UNCHANGED <<ntail, nhead, nnext, futexQ, ip, spur, outstanding, own, tasks, pushed, regd, before,
+    /\ UNCHANGED <<ntail, nhead, nnext, futexQ, ip, spur, cur, outstanding, own, tasks, pushed, regd, before,
                    zeroAfter, fired, ran, zeroSeen, waitRes, earlyF2, earlyOther>>
 LeaveCasFail(t) ==
-    /\ pc[t] = "lv_cas" /\ st # lv[t].o
-    /\ LET r == [lv[t] EXCEPT !.o = st] IN              \* old_state reloaded by the failed CAS
-       IF LeaveNew(st) = st
-         THEN GoSet(t, WakePc(st), WakeLv(r, st))
+    /\ pc[t] = "lv_cas" /\ st[G(t)] # lv[t].o
+    /\ LET s == st[G(t)]
+           r == [lv[t] EXCEPT !.o = s] IN              \* old_state reloaded by the failed CAS
+       IF LeaveNew(s) = s
+         THEN GoSet(t, WakePc(s), WakeLv(r, s))
          ELSE Set(t, r) /\ Go(t, "lv_cas")
-    /\ UNCHANGED <<st, ntail, nhead, nnext, futexQ, ip, spur, outstanding, own, tasks, pushed, regd, before,
+    /\ UNCHANGED <<st, ntail, nhead, nnext, futexQ, ip, spur, cur, outstanding, own, tasks, pushed, regd, before,
                    zeroAfter, fired, ran, zeroSeen, waitRes, earlyF2, earlyOther>>
 
 (* --------------------------- _dispatch_group_notify --------------------------- *)
 \* prev = os_mpsc_push_update_tail(): dsn->do_next = NULL (private), xchg(dg_notify_tail, dsn, release)
 NotifyXchg(t, n) ==
-    /\ pc[t] = "nf_xchg" /\ n \in NIds \ pushed
-    /\ ntail' = n /\ nnext' = [nnext EXCEPT ![n] = 0]
-    /\ pushed' = pushed \cup {n}
+    /\ pc[t] = "nf_xchg" /\ n \in NIds \ PushedAll
+    /\ ntail' = [ntail EXCEPT ![G(t)] = n] /\ nnext' = [nnext EXCEPT ![n] = 0]
+    /\ pushed' = [pushed EXCEPT ![G(t)] = @ \cup {n}]
     /\ before' = [before EXCEPT ![n] = lv[t].bef]
-    \* every thread between its zero decision and its snapshot sees n entering its window
+    \* every thread between its zero decision (on this group) and its snapshot sees n entering its window
     /\ lv' = [u \in Threads |->
-               IF u = t THEN [lv[t] EXCEPT !.n = n, !.prev = ntail,
+               IF u = t THEN [lv[t] EXCEPT !.n = n, !.prev = ntail[G(t)],
                                            !.win = IF lv[t].dec THEN @ \cup {n} ELSE @]
-               ELSE IF lv[u].dec THEN [lv[u] EXCEPT !.win = @ \cup {n}] ELSE lv[u]]
+               ELSE IF lv[u].dec /\ lv[u].grp = G(t) THEN [lv[u] EXCEPT !.win = @ \cup {n}] ELSE lv[u]]
     /\ Go(t, "nf_link")
-    /\ UNCHANGED <<st, nhead, futexQ, ip, spur, outstanding, own, tasks, regd, zeroAfter, fired, ran, zeroSeen,
+    /\ UNCHANGED <<st, nhead, futexQ, ip, spur, cur, outstanding, own, tasks, regd, zeroAfter, fired, ran, zeroSeen,
                    waitRes, earlyF2, earlyOther>>
 \* os_mpsc_push_update_prev(): prev->do_next = dsn, or dg_notify_head = dsn when the list was empty
 NotifyLink(t) ==
     /\ pc[t] = "nf_link"
     /\ IF lv[t].prev = 0
-         THEN nhead' = lv[t].n /\ nnext' = nnext /\ regd' = regd
+         THEN nhead' = [nhead EXCEPT ![G(t)] = lv[t].n] /\ nnext' = nnext /\ regd' = regd
          ELSE /\ nnext' = [nnext EXCEPT ![lv[t].prev] = lv[t].n] /\ nhead' = nhead
               /\ regd' = Reg(lv[t].n)
     /\ GoSet(t, IF lv[t].prev = 0 THEN "nf_load" ELSE "idle", lv[t])
-    /\ UNCHANGED <<st, ntail, futexQ, ip, spur, outstanding, own, tasks, pushed, before,
+    /\ UNCHANGED <<st, ntail, futexQ, ip, spur, cur, outstanding, own, tasks, pushed, before,
                    zeroAfter, fired, ran, zeroSeen, waitRes, earlyF2, earlyOther>>
 \* body of the rmw loop on the value o just read from dg_state
 \* if ((uint32_t)old_state == 0) give up and _dispatch_group_wake(dg, old_state | HAS_NOTIFS, false)
@@ -277,17 +331,17 @@ NotifyDecide(t, o) ==
              THEN GoSet(t, "idle", lv[t]) /\ regd' = Reg(lv[t].n)
              ELSE Set(t, [lv[t] EXCEPT !.o = o]) /\ Go(t, "nf_cas") /\ regd' = regd
 NotifyLoad(t) ==
-    /\ pc[t] = "nf_load" /\ NotifyDecide(t, st)
-    /\ UNCHANGED <<st, ntail, nhead, nnext, futexQ, ip, spur, outstanding, own, tasks, pushed, before,
+    /\ pc[t] = "nf_load" /\ NotifyDecide(t, st[G(t)])
+    /\ UNCHANGED <<st, ntail, nhead, nnext, futexQ, ip, spur, cur, outstanding, own, tasks, pushed, before,
                    zeroAfter, fired, ran, zeroSeen, waitRes, earlyF2, earlyOther>>
 NotifyCasOk(t) ==
-    /\ pc[t] = "nf_cas" /\ st = lv[t].o
-    /\ st' = [st EXCEPT !.hn = 1] /\ GoSet(t, "idle", lv[t]) /\ regd' = Reg(lv[t].n)
-    /\ UNCHANGED <<ntail, nhead, nnext, futexQ, ip, spur, outstanding, own, tasks, pushed, before,
+    /\ pc[t] = "nf_cas" /\ st[G(t)] = lv[t].o
+    /\ st' = [st EXCEPT ![G(t)].hn = 1] /\ GoSet(t, "idle", lv[t]) /\ regd' = Reg(lv[t].n)
+    /\ UNCHANGED <<ntail, nhead, nnext, futexQ, ip, spur, cur, outstanding, own, tasks, pushed, before,
                    zeroAfter, fired, ran, zeroSeen, waitRes, earlyF2, earlyOther>>
 NotifyCasFail(t) ==
-    /\ pc[t] = "nf_cas" /\ st # lv[t].o /\ NotifyDecide(t, st)
-    /\ UNCHANGED <<st, ntail, nhead, nnext, futexQ, ip, spur, outstanding, own, tasks, pushed, before,
+    /\ pc[t] = "nf_cas" /\ st[G(t)] # lv[t].o /\ NotifyDecide(t, st[G(t)])
+    /\ UNCHANGED <<st, ntail, nhead, nnext, futexQ, ip, spur, cur, outstanding, own, tasks, pushed, before,
                    zeroAfter, fired, ran, zeroSeen, waitRes, earlyF2, earlyOther>>
 
 (* ----------------------------- dispatch_group_wait ----------------------------- *)
@@ -301,106 +355,142 @@ WaitDecide(t, o) ==
       THEN Go(t, "w_fcall") /\ Set(t, [lv[t] EXCEPT !.o = o, !.g = o.gen]) /\ waitRes' = waitRes
     ELSE Go(t, "w_cas") /\ Set(t, [lv[t] EXCEPT !.o = o]) /\ waitRes' = waitRes
 WaitLoad(t) ==
-    /\ pc[t] = "w_load" /\ WaitDecide(t, st)
-    /\ UNCHANGED <<st, ntail, nhead, nnext, futexQ, ip, spur, outstanding, own, tasks, pushed, regd, before,
+    /\ pc[t] = "w_load" /\ WaitDecide(t, st[G(t)])
+    /\ UNCHANGED <<st, ntail, nhead, nnext, futexQ, ip, spur, cur, outstanding, own, tasks, pushed, regd, before,
                    zeroAfter, fired, ran, zeroSeen, earlyF2, earlyOther>>
 WaitCasOk(t) ==
-    /\ pc[t] = "w_cas" /\ st = lv[t].o
-    /\ st' = [st EXCEPT !.hw = 1]
-    /\ Set(t, [lv[t] EXCEPT !.g = st.gen]) /\ Go(t, "w_fcall")       \* gen = _dg_state_gen(new_state)
-    /\ UNCHANGED <<ntail, nhead, nnext, futexQ, ip, spur, outstanding, own, tasks, pushed, regd, before,
+    /\ pc[t] = "w_cas" /\ st[G(t)] = lv[t].o
+    /\ st' = [st EXCEPT ![G(t)].hw = 1]
+    /\ Set(t, [lv[t] EXCEPT !.g = st[G(t)].gen]) /\ Go(t, "w_fcall")       \* gen = _dg_state_gen(new_state)
+    /\ UNCHANGED <<ntail, nhead, nnext, futexQ, ip, spur, cur, outstanding, own, tasks, pushed, regd, before,
                    zeroAfter, fired, ran, zeroSeen, waitRes, earlyF2, earlyOther>>
 WaitCasFail(t) ==
-    /\ pc[t] = "w_cas" /\ st # lv[t].o /\ WaitDecide(t, st)
-    /\ UNCHANGED <<st, ntail, nhead, nnext, futexQ, ip, spur, outstanding, own, tasks, pushed, regd, before,
+    /\ pc[t] = "w_cas" /\ st[G(t)] # lv[t].o /\ WaitDecide(t, st[G(t)])
+    /\ UNCHANGED <<st, ntail, nhead, nnext, futexQ, ip, spur, cur, outstanding, own, tasks, pushed, regd, before,
                    zeroAfter, fired, ran, zeroSeen, earlyF2, earlyOther>>
 \* _dispatch_wait_on_address(&dg->dg_gen, gen, timeout): _dispatch_timeout(timeout) == 0 -> ETIMEDOUT
 \* without a kernel call (the full timeout has elapsed; real time is not modelled)
 WaitElapsed(t) ==
     /\ pc[t] = "w_fcall" /\ lv[t].kind = "timed"
     /\ Set(t, [lv[t] EXCEPT !.tmo = TRUE, !.rc = "timedout"]) /\ Go(t, "w_gload")
-    /\ UNCHANGED <<st, ntail, nhead, nnext, futexQ, ip, spur, outstanding, own, tasks, pushed, regd, before,
+    /\ UNCHANGED <<st, ntail, nhead, nnext, futexQ, ip, spur, cur, outstanding, own, tasks, pushed, regd, before,
                    zeroAfter, fired, ran, zeroSeen, waitRes, earlyF2, earlyOther>>
 \* ... otherwise syscall(SYS_futex, &dg_gen, FUTEX_WAIT, gen, ts); kernel: *uaddr == val -> sleep
 FutexSleep(t) ==
-    /\ pc[t] = "w_fcall" /\ st.gen = lv[t].g
-    /\ futexQ' = futexQ \cup {t} /\ Go(t, "w_sleep")
-    /\ UNCHANGED <<st, ntail, nhead, nnext, lv, ip, spur, outstanding, own, tasks, pushed, regd, before,
+    /\ pc[t] = "w_fcall" /\ st[G(t)].gen = lv[t].g
+    /\ futexQ' = [futexQ EXCEPT ![G(t)] = @ \cup {t}] /\ Go(t, "w_sleep")
+    /\ UNCHANGED <<st, ntail, nhead, nnext, lv, ip, spur, cur, outstanding, own, tasks, pushed, regd, before,
                    zeroAfter, fired, ran, zeroSeen, waitRes, earlyF2, earlyOther>>
 \* kernel: *uaddr != val -> EWOULDBLOCK
 FutexAgain(t) ==
-    /\ pc[t] = "w_fcall" /\ st.gen # lv[t].g
+    /\ pc[t] = "w_fcall" /\ st[G(t)].gen # lv[t].g
     /\ Set(t, [lv[t] EXCEPT !.rc = "again"]) /\ Go(t, "w_gload")
-    /\ UNCHANGED <<st, ntail, nhead, nnext, futexQ, ip, spur, outstanding, own, tasks, pushed, regd, before,
+    /\ UNCHANGED <<st, ntail, nhead, nnext, futexQ, ip, spur, cur, outstanding, own, tasks, pushed, regd, before,
                    zeroAfter, fired, ran, zeroSeen, waitRes, earlyF2, earlyOther>>
 \* woken by FUTEX_WAKE
 FutexWoken(t) ==
-    /\ pc[t] = "w_sleep" /\ t \notin futexQ
+    /\ pc[t] = "w_sleep" /\ t \notin futexQ[G(t)]
     /\ Set(t, [lv[t] EXCEPT !.rc = "ok"]) /\ Go(t, "w_gload")
-    /\ UNCHANGED <<st, ntail, nhead, nnext, futexQ, ip, spur, outstanding, own, tasks, pushed, regd, before,
+    /\ UNCHANGED <<st, ntail, nhead, nnext, futexQ, ip, spur, cur, outstanding, own, tasks, pushed, regd, before,
                    zeroAfter, fired, ran, zeroSeen, waitRes, earlyF2, earlyOther>>
 \* spurious wake-up / EINTR
 FutexSpurious(t) ==
-    /\ pc[t] = "w_sleep" /\ t \in futexQ /\ (MaxSpur < 0 \/ spur < MaxSpur)
-    /\ futexQ' = futexQ \ {t} /\ spur' = IF MaxSpur < 0 THEN spur ELSE spur + 1
+    /\ pc[t] = "w_sleep" /\ t \in futexQ[G(t)] /\ (MaxSpur < 0 \/ spur < MaxSpur)
+    /\ futexQ' = [futexQ EXCEPT ![G(t)] = @ \ {t}] /\ spur' = IF MaxSpur < 0 THEN spur ELSE spur + 1
     /\ Set(t, [lv[t] EXCEPT !.rc = "ok"]) /\ Go(t, "w_gload")
-    /\ UNCHANGED <<st, ntail, nhead, nnext, ip, outstanding, own, tasks, pushed, regd, before,
+    /\ UNCHANGED <<st, ntail, nhead, nnext, ip, cur, outstanding, own, tasks, pushed, regd, before,
                    zeroAfter, fired, ran, zeroSeen, waitRes, earlyF2, earlyOther>>
 \* ETIMEDOUT: the timeout step
 FutexTimeout(t) ==
     /\ pc[t] = "w_sleep" /\ lv[t].kind = "timed"
-    /\ futexQ' = futexQ \ {t}
+    /\ futexQ' = [futexQ EXCEPT ![G(t)] = @ \ {t}]
     /\ Set(t, [lv[t] EXCEPT !.tmo = TRUE, !.rc = "timedout"]) /\ Go(t, "w_gload")
-    /\ UNCHANGED <<st, ntail, nhead, nnext, ip, spur, outstanding, own, tasks, pushed, regd, before,
+    /\ UNCHANGED <<st, ntail, nhead, nnext, ip, spur, cur, outstanding, own, tasks, pushed, regd, before,
                    zeroAfter, fired, ran, zeroSeen, waitRes, earlyF2, earlyOther>>
 \* if (gen != os_atomic_load2o(dg, dg_gen, acquire)) return 0; if (rc == ETIMEDOUT) return TIMEOUT;
 WaitGenLoad(t) ==
     /\ pc[t] = "w_gload"
-    /\ LET changed == IF Mut = "wait_nogen" THEN (st.gen # lv[t].g \/ lv[t].rc = "ok")
-                                            ELSE st.gen # lv[t].g
+    /\ LET gen == st[G(t)].gen
+           changed == IF Mut = "wait_nogen" THEN (gen # lv[t].g \/ lv[t].rc = "ok")
+                                            ELSE gen # lv[t].g
        IN IF changed THEN RetWait(t, "ok", lv[t])
           ELSE IF lv[t].rc = "timedout" THEN RetWait(t, "timeout", lv[t])
           ELSE Go(t, "w_fcall") /\ waitRes' = waitRes /\ lv' = lv
-    /\ UNCHANGED <<st, ntail, nhead, nnext, futexQ, ip, spur, outstanding, own, tasks, pushed, regd, before,
+    /\ UNCHANGED <<st, ntail, nhead, nnext, futexQ, ip, spur, cur, outstanding, own, tasks, pushed, regd, before,
                    zeroAfter, fired, ran, zeroSeen, earlyF2, earlyOther>>
 
 \* the notification block runs on its queue (environment; used by trace validation only)
 NotifyRan(n) ==
     /\ n \in NIds /\ fired[n] >= 1
     /\ ran' = [ran EXCEPT ![n] = @ + 1]
-    /\ UNCHANGED <<st, ntail, nhead, nnext, futexQ, pc, lv, ip, spur, outstanding, own, tasks, pushed, regd,
+    /\ UNCHANGED <<st, ntail, nhead, nnext, futexQ, pc, lv, ip, spur, cur, outstanding, own, tasks, pushed, regd,
                    before, zeroAfter, fired, zeroSeen, waitRes, earlyF2, earlyOther>>
 
 \* model checking: notifier identities are allocated in push order
-MinFree == CHOOSE m \in NIds \ pushed : \A k \in NIds \ pushed : m <= k
+MinFree == CHOOSE m \in NIds \ PushedAll : \A k \in NIds \ PushedAll : m <= k
 Lib(t) == \/ LeaveCasOk(t) \/ LeaveCasFail(t)
           \/ WakeGetHead(t) \/ WakeHeadClear(t) \/ WakeTailXchg(t) \/ WakeGetNext(t) \/ WakeSubmit(t)
           \/ WakeFutex(t)
-          \/ (NIds \ pushed # {} /\ NotifyXchg(t, MinFree))
+          \/ (NIds \ PushedAll # {} /\ NotifyXchg(t, MinFree))
           \/ NotifyLink(t) \/ NotifyLoad(t) \/ NotifyCasOk(t) \/ NotifyCasFail(t)
           \/ WaitLoad(t) \/ WaitCasOk(t) \/ WaitCasFail(t) \/ WaitElapsed(t)
           \/ FutexSleep(t) \/ FutexAgain(t) \/ FutexWoken(t) \/ FutexSpurious(t) \/ FutexTimeout(t)
           \/ WaitGenLoad(t)
 
 (* ------------------------ client of the model-checking runs ------------------------ *)
-Ops == {"enter", "leave", "async", "notify", "wait", "waitT", "waitN", "skip"}
+\* an operation is <<kind, group, body>>; body = index in Bodies of what the block of an "async" does (0: nothing)
+Kinds == {"enter", "leave", "async", "notify", "wait", "waitT", "waitN", "skip"}
+\* what the block of a dispatch_group_async does, as a sequence of nested operations ("O": on the other group)
+Bodies == << <<"asyncO">>,                       \* 1: dispatch_group_async(B, ...) from inside an item of A
+             <<"enterO", "leaveO">>,             \* 2: enter(B) ... leave(B)
+             <<"notifyO">>,                      \* 3: dispatch_group_notify(B, ...)
+             <<"asyncS", "asyncO">>,             \* 4: same group first, then the other one
+             <<"asyncO", "notifyS">> >>          \* 5
+\* tokens: 1000 * body + 100 * thread + position for the clients' work, 10000 + ... for nested work (empty body)
+BodyOf(tk) == IF tk >= 10000 \/ tk < 1000 THEN <<>> ELSE Bodies[tk \div 1000]
+Other(g) == IF Groups = {g} THEN g ELSE CHOOSE h \in Groups : h # g
+NotifyRoom == /\ NIds \ PushedAll # {}
+              /\ Cardinality({u \in Threads : pc[u] = "nf_xchg"}) < Cardinality(NIds \ PushedAll)
 Advance(t) == ip' = [ip EXCEPT ![t] = @ + 1]
 Call(t) ==
-    /\ pc[t] = "idle" /\ ip[t] <= Len(Prog[t])
+    /\ pc[t] = "idle" /\ t \notin Workers /\ ip[t] <= Len(Prog[t])
     /\ \E op \in Prog[t][ip[t]] :
-         CASE op = "enter"  -> Enter(t, 100 * t + ip[t], FALSE)
-           [] op = "async"  -> Workers # {} /\ Enter(t, 100 * t + ip[t], TRUE)
-           [] op = "leave"  -> \E tk \in own[t] : Leave(t, tk)
-           [] op = "notify" -> NIds \ pushed # {} /\ Cardinality({u \in Threads : pc[u] = "nf_xchg"}) < Cardinality(NIds \ pushed)
-                               /\ CallNotify(t)
-           [] op = "wait"   -> CallWait(t, "forever")
-           [] op = "waitT"  -> CallWait(t, "timed")
-           [] op = "waitN"  -> CallWait(t, "now")
-           [] op = "skip"   -> UNCHANGED <<st, ntail, nhead, nnext, futexQ, pc, lv, spur, outstanding, own, tasks,
-                                           pushed, regd, before, zeroAfter, fired, ran, zeroSeen, waitRes, earlyF2, earlyOther>>
+         LET k == op[1]
+             g == op[2]
+         IN CASE k = "enter"  -> Enter(t, g, 100 * t + ip[t], FALSE)
+              [] k = "async"  -> Workers # {} /\ Enter(t, g, 1000 * op[3] + 100 * t + ip[t], TRUE)
+              [] k = "leave"  -> \E tk \in own[g][t] : Leave(t, g, tk)
+              [] k = "notify" -> NotifyRoom /\ CallNotify(t, g)
+              [] k = "wait"   -> CallWait(t, g, "forever")
+              [] k = "waitT"  -> CallWait(t, g, "timed")
+              [] k = "waitN"  -> CallWait(t, g, "now")
+              [] k = "skip"   -> UNCHANGED <<st, ntail, nhead, nnext, futexQ, pc, lv, spur, cur, outstanding, own, tasks,
+                                             pushed, regd, before, zeroAfter, fired, ran, zeroSeen, waitRes, earlyF2, earlyOther>>
     /\ Advance(t)
-\* a worker finishes the block of some dispatch_group_async
-Work(t) == t \in Workers /\ \E tk \in tasks : Leave(t, tk) /\ UNCHANGED ip
+\* a worker runs the block of some dispatch_group_async: callout start, the nested operations of its body (each a
+\* complete call: the worker's Lib steps bring it back to idle), callout end, the library's leave
+WorkStart(t) ==
+    /\ \E g \in Groups : \E tk \in tasks[g] : ItemStartD(t, g, tk, BodyOf(tk) = <<>>)
+    /\ ip' = [ip EXCEPT ![t] = 1]
+WorkOp(t) ==
+    /\ pc[t] = "idle" /\ cur[t].tk # 0 /\ ~cur[t].done /\ ip[t] <= Len(BodyOf(cur[t].tk))
+    /\ LET op == BodyOf(cur[t].tk)[ip[t]]
+           g == cur[t].g
+           h == Other(cur[t].g)
+           ntk == 10000 + 10 * (cur[t].tk % 1000) + ip[t]
+       IN CASE op = "asyncO"  -> Enter(t, h, ntk, TRUE)
+            [] op = "asyncS"  -> Enter(t, g, ntk, TRUE)
+            [] op = "enterO"  -> Enter(t, h, ntk, FALSE)
+            [] op = "leaveO"  -> \E tk \in own[h][t] : Leave(t, h, tk)
+            [] op = "notifyO" -> NotifyRoom /\ CallNotify(t, h)
+            [] op = "notifyS" -> NotifyRoom /\ CallNotify(t, g)
+    /\ Advance(t)
+WorkEnd(t) ==
+    /\ cur[t].tk # 0 /\ ip[t] > Len(BodyOf(cur[t].tk)) /\ ItemEnd(t, cur[t].tk) /\ UNCHANGED ip
+WorkLeave(t) ==
+    /\ cur[t].tk # 0 /\ cur[t].done
+    /\ Leave(t, IF MutData THEN cur[t].data ELSE cur[t].g, cur[t].tk) /\ UNCHANGED ip
+Work(t) == t \in Workers /\ (WorkStart(t) \/ WorkOp(t) \/ WorkEnd(t) \/ WorkLeave(t))
 
 Step(t) == Call(t) \/ Work(t) \/ (Lib(t) /\ UNCHANGED ip)
 Next == \E t \in Threads : Step(t)
@@ -409,11 +499,17 @@ Spec == Init /\ [][Next]_vars
 FairSpec == Spec /\ \A t \in Threads : WF_vars((Lib(t) /\ UNCHANGED ip) \/ Work(t))
 
 (* --------------------------------- properties (C07) --------------------------------- *)
-TypeOK == /\ st.nv \in 0..(VMOD - 1) /\ st.hn \in {0, 1} /\ st.hw \in {0, 1} /\ st.gen \in Nat
-          /\ ntail \in NIds \cup {0} /\ nhead \in NIds \cup {0}
-          /\ futexQ \subseteq Threads
-          /\ \A t \in futexQ : pc[t] = "w_sleep"
-          /\ Count(st.nv) = Cardinality(outstanding)
+Held(g) == tasks[g] \cup UNION {own[g][t] : t \in Threads}
+TypeOK == /\ \A g \in Groups :
+               /\ st[g].nv \in 0..(VMOD - 1) /\ st[g].hn \in {0, 1} /\ st[g].hw \in {0, 1} /\ st[g].gen \in Nat
+               /\ ntail[g] \in NIds \cup {0} /\ nhead[g] \in NIds \cup {0}
+               /\ futexQ[g] \subseteq Threads
+               /\ \A t \in futexQ[g] : pc[t] = "w_sleep" /\ G(t) = g
+               \* conservation, per group: the word counts exactly the enters not yet matched by a leave ON THIS
+               \* GROUP, and each of those is work somebody still holds (so it will be left, on this group)
+               /\ Count(st[g].nv) = Cardinality(outstanding[g])
+               /\ outstanding[g] = Held(g)
+          /\ \A t \in Threads : cur[t].tk # 0 => cur[t].g \in Groups /\ cur[t].tk \in tasks[cur[t].g]
 
 \* wait returns zero only if at some moment during the call every enter had been matched by a leave
 WaitOkImpliesZero == \A t \in Threads : waitRes[t] = "ok" => zeroSeen[t]
@@ -427,39 +523,46 @@ NotifyNotEarly == ~earlyF2 /\ ~earlyOther
 \* the same minus the known finding F2 (a notifier pushed between a zero decision and the list snapshot)
 NotifyNotEarlyExceptF2 == ~earlyOther
 \* a submitted notifier was pushed
-FiredWasPushed == \A n \in NIds : fired[n] > 0 => n \in pushed
+FiredWasPushed == \A n \in NIds : fired[n] > 0 => n \in PushedAll
 
 \* nothing is left behind when the count reaches zero: whenever no call is in progress except
 \* waiters asleep in the kernel, no sleeper's generation has passed (the count has not returned to zero
 \* since the waiter published itself) and no notifier that saw a zero is unfired
-Asleep(t) == pc[t] = "w_sleep" /\ t \in futexQ
+Asleep(t) == pc[t] = "w_sleep" /\ t \in futexQ[G(t)]
 Quiet == \A t \in Threads : pc[t] = "idle" \/ Asleep(t)
-NothingLeft == Quiet => /\ \A t \in Threads : Asleep(t) => st.gen = lv[t].g
-                        /\ (Count(st.nv) = 0 => /\ st.hn = 0 /\ st.hw = 0 /\ ntail = 0 /\ futexQ = {}
-                                                /\ \A n \in pushed : fired[n] >= 1)
+NothingLeft == Quiet => \A g \in Groups :
+                        /\ \A t \in Threads : (Asleep(t) /\ G(t) = g) => st[g].gen = lv[t].g
+                        /\ (Count(st[g].nv) = 0 => /\ st[g].hn = 0 /\ st[g].hw = 0 /\ ntail[g] = 0 /\ futexQ[g] = {}
+                                                   /\ \A n \in pushed[g] : fired[n] >= 1)
 \* stricter reading, reported but NOT judged (see tools/props/C07.py): a notifier whose notify call had
 \* returned is fired for the first zero transition that follows, not for a later one
 NoMissedZero == Quiet => \A n \in regd : zeroAfter[n] => fired[n] >= 1
 \* progress as a safety condition (the state graph of a finite client is acyclic but for CAS retries, which
 \* need another thread's step): when every thread is idle or blocked, the only blocked threads are
 \* legitimate sleepers -- nobody spins for an enqueuer that does not exist
-Blocked(t) == \/ pc[t] = "wk_head" /\ nhead = 0
+Blocked(t) == \/ pc[t] = "wk_head" /\ nhead[G(t)] = 0
               \/ pc[t] = "wk_next" /\ nnext[lv[t].dc] = 0
               \/ Asleep(t)
 StuckFree == (\A t \in Threads : pc[t] = "idle" \/ Blocked(t)) => (\A t \in Threads : Blocked(t) => Asleep(t))
 \* reusable: at every quiescent zero the group is exactly a new group but for the generation
-Reusable == (Quiet /\ Count(st.nv) = 0) => (st.nv = 0 /\ st.hn = 0 /\ st.hw = 0 /\ ntail = 0 /\ nhead = 0)
+Reusable == Quiet => \A g \in Groups : Count(st[g].nv) = 0 =>
+                        (st[g].nv = 0 /\ st[g].hn = 0 /\ st[g].hw = 0 /\ ntail[g] = 0 /\ nhead[g] = 0)
 
 \* liveness under fairness
 CallsTerminate == \A t \in Threads : (pc[t] # "idle" /\ ~InWait(t)) ~> (pc[t] = "idle")
 InSlow(t) == pc[t] \in {"w_fcall", "w_sleep", "w_gload"}
 WaitersReleased == \A t \in Threads :
     /\ (pc[t] \in {"w_load", "w_cas"}) ~> (pc[t] \notin {"w_load", "w_cas"})
-    /\ (InSlow(t) /\ (st.gen # lv[t].g \/ lv[t].kind = "timed")) ~> (pc[t] = "idle")
+    /\ (InSlow(t) /\ (st[G(t)].gen # lv[t].g \/ lv[t].kind = "timed")) ~> (pc[t] = "idle")
 \* a pushed notifier does not stay unsubmitted while the count stays at zero
-Notified == \A n \in NIds : (n \in pushed /\ Count(st.nv) = 0) ~> (fired[n] >= 1 \/ Count(st.nv) # 0)
+Notified == \A g \in Groups : \A n \in NIds :
+    (n \in pushed[g] /\ Count(st[g].nv) = 0) ~> (fired[n] >= 1 \/ Count(st[g].nv) # 0)
+\* dispatch_group_async work is run and left: every group drains
+Drains == \A g \in Groups : (tasks[g] # {}) ~> (tasks[g] = {})
 
 \* reachability witnesses used by the check for non-vacuity of the bounds (expected to be VIOLATED)
-NeverTwoGenerations == st.gen < 2
+NeverTwoGenerations == \A g \in Groups : st[g].gen < 2
 NeverF2 == ~earlyF2
+\* an item of one group has work of ANOTHER group outstanding that it submitted itself, at its end
+NeverCrossGroup == \A t \in Threads : ~(cur[t].done /\ \E g \in Groups \ {cur[t].g} : \E tk \in tasks[g] : tk >= 10000)
 =============================================================================
